@@ -82,8 +82,8 @@ def _flag_sets(body, edge_target_blocks):
     return flags
 
 
-def r1_producer(chk):
-    r = chk.rule("R1", "producer protocol of ReadyPipeQueue", "T3 guarded-by + T4 must-pass-through + T9 constants",
+def r1_producer(chk, rid="R1"):
+    r = chk.rule(rid, "producer protocol of ReadyPipeQueue", "T3 guarded-by + T4 must-pass-through + T9 constants",
                  "at every queued_count.fetch_add: the channel write succeeded first, the increment is 1, and the pipe is put on the ready list iff the previous count was 0")
     for cfg, prog in chk.configs():
         for body in prog.bodies.values():
@@ -153,6 +153,12 @@ def r1_producer(chk):
                         elif not fl_sw or not armed or len(armed) != len(arms):
                             ok_all, why = False, "the wake-up flag set under prev==0 does not guard the ready-list arm"
                         else:
+                            # once the 0->1 transition is recorded, every path to a return must come to the test of the flag
+                            for b, i, st in body.statements():
+                                if st["k"] == "assign" and st["p"]["l"] == fl and not st["p"]["pr"] and st["r"]["k"] == "use" and st["r"]["o"].get("int") == 1:
+                                    r4_ = body.reachable([b], avoid_blocks=fl_sw)
+                                    if any(body.term(x)["k"] == "return" for x in r4_):
+                                        ok_all, why = False, "after the 0->1 transition is recorded a path reaches return without testing the wake-up flag (the ready-list arm is skipped on it)"
                             for s3 in fl_sw:
                                 tg = [tb for tb, l3 in body.edges(s3) if l3 == body.bool_edge_label(s3, True)]
                                 r3_ = body.reachable(tg, avoid_blocks=[a.blk for a in armed])
